@@ -54,6 +54,8 @@ func sevBase(r polRow) *cpb.Policy {
 		p.Policy = ProdPolicy
 	case "diff":
 		p.Policy = ProdPolicy ^ (1 << 19) // debug allowed
+	case "stricter":
+		p.Policy = ProdPolicy &^ (1 << 16) // SMT not allowed: a bitwise subset of the endorsed policy
 	}
 	switch r.Bmeas {
 	case "same":
